@@ -11,6 +11,7 @@ EXPLANATION = (
     "reward_nom = dosc_to_erg(height, calculate_reward(speed, history[height−1].dosc_speed, difficulty, tip910)). R3 speed commitment: dosc_speed is written only by "
     "apply_tx_batch_impl with a max-fold/max-reduce whose identities are the previous speed. R4 coverage: the fold ranges over every batch member of kind DoscMint. "
     "R5 speed formula: (100 if tip910 else 1)·2^difficulty / (state height − coin height)."
+    " Imports C03.R5's inflator clause: microergs_per_dosc(h) hands back the table entry at index h on the fill path too."
 )
 NOT_DECIDED = ["soundness of MelPoW verification (melpow, trusted base)", "the numeric reward / inflator formulas (big-integer arithmetic in melmint.rs, read not proved)"]
 ASSUMPTIONS = ["melpow::Proof::verify returns true only for valid proofs of the given puzzle and difficulty"]
